@@ -770,6 +770,12 @@ class Shape:
                 recv.items = None
                 return NoneT()
             if m == 'extend':
+                if is_unk(recv.elem) and args:
+                    a_ = args[0]
+                    el = a_.elem if isinstance(a_, (Arr, ListT)) else None
+                    if el is not None:
+                        recv.elem = el
+                recv.items = None
                 return NoneT()
             return None
         if isinstance(recv, DictT):
@@ -1035,6 +1041,12 @@ class Shape:
             return UNK
         if np_ in ('r_', 'c_'):
             return UNK
+        if np_ in ('split', 'array_split') and isinstance(a0, Arr) and a0.axes and self.axis_of(e, kw) in (None, 0):
+            # consecutive pieces of the first axis, cut at the given positions: a list of ranges of that axis
+            pieces = Arr((Space('Slice', unparse(e.args[1]) if len(e.args) > 1 else '?', a0.axes[0]),) + a0.axes[1:], a0.elem)
+            cuts = args[1] if len(args) > 1 else None
+            ax = cuts.axes[0] if isinstance(cuts, Arr) and cuts.axes else None
+            return ListT(pieces, axis=ax)
         if np_ in ('vstack', 'concatenate', 'stack', 'dstack', 'hstack'):
             if isinstance(a0, ListT) and isinstance(a0.elem, Arr) and np_ in ('vstack', 'stack') and self.axis_of(e, kw) in (None, 0):
                 return Arr((a0.axis or Space('ListAx', a0.vid),) + a0.elem.axes, a0.elem.elem)
@@ -1092,6 +1104,9 @@ class Shape:
         if f == 'Bunch' or f.endswith('.Bunch'):
             return Rec({k: self.ev(v, env) for k, v in kw.items()})
         if f == 'dict':
+            # dict(zip(keys, values)) -> a dictionary from the elements of `keys` to the elements of `values`
+            if len(args) == 1 and not kw and isinstance(a0, ListT) and isinstance(a0.elem, Tup) and len(a0.elem.items) == 2:
+                return DictT(a0.elem.items[0], a0.elem.items[1])
             return Rec({k: self.ev(v, env) for k, v in kw.items()})
         if f == 'len':
             if isinstance(a0, Arr):
